@@ -169,4 +169,98 @@ theorem Tx.run_log_epoch (t : Tx) (sched : List Who) (h : ∀ a ∈ t.log, a.epo
       · exact h a ha)
     simpa [Tx.run, Tx.alloc] using this
 
+/-! ### publication invariant (counters first, state last) -/
+
+structure PInv (E S : Nat) (s : PSys) : Prop where
+  stage : (s.rest = pubOrder ∧ s.sh.connected = false) ∨
+          (s.rest = [.storeSeq, .setState] ∧ s.sh.connected = false ∧ s.sh.wEpoch = E) ∨
+          (s.rest = [.setState] ∧ s.sh.connected = false ∧ s.sh.wEpoch = E ∧ s.sh.wSeq = S) ∨
+          (s.rest = [] ∧ s.sh.connected = true ∧ s.sh.wEpoch = E ∧ S ≤ s.sh.wSeq)
+  idle : s.sh.connected = false → (∀ t, (s.thr t).pc = 0) ∧ s.log = []
+  loaded : ∀ t, 2 ≤ (s.thr t).pc → (s.thr t).epoch = E
+  range : ∀ p ∈ s.log, p.1 = E ∧ S ≤ p.2 ∧ p.2 < s.sh.wSeq
+  nodup : s.log.Pairwise (· ≠ ·)
+
+theorem PInv.init (E S : Nat) : PInv E S { rest := pubOrder } :=
+  ⟨Or.inl ⟨rfl, rfl⟩, fun _ => ⟨fun _ => rfl, rfl⟩, by intro t h; simp at h, by simp, by simp⟩
+
+theorem PInv.step {E S : Nat} {s : PSys} (h : PInv E S s) (a : PAct) : PInv E S (s.step E S a) := by
+  obtain ⟨h1, h2, h3, h4, h5⟩ := h
+  cases a with
+  | pub =>
+    rcases h1 with ⟨hr, hc⟩ | ⟨hr, hc, he⟩ | ⟨hr, hc, he, hs⟩ | ⟨hr, hc, he, hs⟩
+    · simp only [PSys.step, hr, pubOrder, applyPub]
+      exact ⟨Or.inr (Or.inl ⟨rfl, hc, rfl⟩), (fun _ => h2 hc), h3, (by rw [(h2 hc).2]; simp), h5⟩
+    · simp only [PSys.step, hr, applyPub]
+      exact ⟨Or.inr (Or.inr (Or.inl ⟨rfl, hc, he, rfl⟩)), (fun _ => h2 hc), h3, (by rw [(h2 hc).2]; simp), h5⟩
+    · simp only [PSys.step, hr, applyPub]
+      exact ⟨Or.inr (Or.inr (Or.inr ⟨rfl, rfl, he, (by show S ≤ s.sh.wSeq; omega)⟩)), (fun hh => by simp at hh), h3,
+        (by rw [(h2 hc).2]; simp), h5⟩
+    · simp only [PSys.step, hr]
+      exact ⟨Or.inr (Or.inr (Or.inr ⟨hr, hc, he, hs⟩)), h2, h3, h4, h5⟩
+  | snd t =>
+    have hconn_of : (s.thr t).pc ≠ 0 → s.sh.connected = true := by
+      intro hne
+      cases hcc : s.sh.connected with
+      | true => rfl
+      | false => exact absurd ((h2 hcc).1 t) hne
+    have hstage_of : s.sh.connected = true → s.rest = [] ∧ s.sh.wEpoch = E ∧ S ≤ s.sh.wSeq := by
+      intro hconn
+      rcases h1 with ⟨_, hc⟩ | ⟨_, hc, _⟩ | ⟨_, hc, _⟩ | ⟨hr, _, he, hs⟩
+      · rw [hconn] at hc; cases hc
+      · rw [hconn] at hc; cases hc
+      · rw [hconn] at hc; cases hc
+      · exact ⟨hr, he, hs⟩
+    simp only [PSys.step]
+    split
+    · -- idle sender looks at the state
+      split
+      · rename_i hc
+        refine ⟨h1, (fun hh => by rw [hc] at hh; cases hh), ?_, h4, h5⟩
+        intro x hx
+        simp only [setThr] at hx ⊢
+        split at hx
+        · simp at hx
+        · rename_i hne; simp only [hne, if_false]; exact h3 x hx
+      · exact ⟨h1, h2, h3, h4, h5⟩
+    · rename_i hp0
+      have hconn := hconn_of hp0
+      have hst := hstage_of hconn
+      split
+      · -- loads the epoch: it saw Connected, so both stores have happened
+        refine ⟨h1, (fun hh => by rw [hconn] at hh; cases hh), ?_, h4, h5⟩
+        intro x hx
+        simp only [setThr] at hx ⊢
+        split
+        · exact hst.2.1
+        · rename_i hne; simp only [hne, if_false] at hx; exact h3 x hx
+      · -- fetch_add
+        rename_i hp1
+        have hpc : 2 ≤ (s.thr t).pc := by omega
+        refine ⟨Or.inr (Or.inr (Or.inr ⟨hst.1, hconn, hst.2.1, (by show S ≤ s.sh.wSeq + 1; omega)⟩)),
+          (fun hh => by rw [show ({ s.sh with wSeq := s.sh.wSeq + 1 } : Shared).connected = s.sh.connected from rfl, hconn] at hh; cases hh),
+          ?_, ?_, ?_⟩
+        · intro x hx
+          simp only [setThr] at hx ⊢
+          split at hx
+          · simp at hx
+          · rename_i hne; simp only [hne, if_false]; exact h3 x hx
+        · intro p hp
+          simp only [List.mem_cons] at hp
+          rcases hp with rfl | hp
+          · exact ⟨h3 t hpc, hst.2.2, (by show s.sh.wSeq < s.sh.wSeq + 1; omega)⟩
+          · have := h4 p hp
+            exact ⟨this.1, this.2.1, (by show p.2 < s.sh.wSeq + 1; omega)⟩
+        · simp only [List.pairwise_cons]
+          refine ⟨?_, h5⟩
+          intro p hp heq
+          have := (h4 p hp).2.2
+          rw [← heq] at this
+          simp at this
+
+theorem PInv.run {E S : Nat} {s : PSys} (h : PInv E S s) (acts : List PAct) : PInv E S (s.run E S acts) := by
+  induction acts generalizing s with
+  | nil => exact h
+  | cons a as ih => exact ih (h.step a)
+
 end RtcModel.DtlsRecord
